@@ -499,6 +499,60 @@ def build_func(space, sd, fd, geo=None):
                     rc(geo, float(fd['outer']), float(fd['sing'])),
                     region=region)
 
+    if cls == 'Simple':
+        # simple_functional(...) wired from caller-supplied callables for
+        # f(x) = a/2 |x|^2 + <b, x> + c and its conjugate
+        # f*(y) = |y - b|^2 / (2a) - c  (norm / inner product of the space).
+        # The callables are the harness' own; the library only has to hand
+        # each of them out under the right name (value / gradient / proximal
+        # of f resp. f*).
+        from odl.solvers.functional.functional import simple_functional
+        a = float(fd['a'])
+        c0 = float(fd.get('c', 0.0))
+        bvec, bflat = _opt_vec(space, fd.get('b'))
+        b0 = space.zero() if bvec is None else bvec
+        with_prox = bool(fd.get('with_prox', True))
+        with_grad = bool(fd.get('with_grad', True))
+        grad_op = bool(fd.get('grad_op', False))
+
+        def fcall(x):
+            return 0.5 * a * x.inner(x) + b0.inner(x) + c0
+
+        def cfcall(y):
+            d = y - b0
+            return d.inner(d) / (2.0 * a) - c0
+
+        def prox(sigma):
+            s = float(sigma)
+            return (odl.ScalingOperator(space, 1.0 / (1.0 + s * a)) *
+                    (odl.IdentityOperator(space) - s * b0))
+
+        def cprox(sigma):
+            s = float(sigma)
+            return (odl.ScalingOperator(space, 1.0 / (1.0 + s / a)) *
+                    (odl.IdentityOperator(space) + (s / a) * b0))
+
+        if grad_op:
+            grad = a * odl.IdentityOperator(space) + b0
+            cgrad = (1.0 / a) * (odl.IdentityOperator(space) - b0)
+        else:
+            def grad(x):
+                return a * x + b0
+
+            def cgrad(y):
+                return (y - b0) / a
+        f = simple_functional(
+            space, fcall=fcall, grad=grad if with_grad else None,
+            prox=prox if with_prox else None, grad_lip=a,
+            convex_conj_fcall=cfcall,
+            convex_conj_grad=cgrad if with_grad else None,
+            convex_conj_prox=cprox if with_prox else None,
+            convex_conj_grad_lip=1.0 / a)
+        return leaf(f, R.QuadraticForm(geo, 0.5 * a * np.eye(n), bflat, c0),
+                    region={'simple': 'prox={},grad={}'.format(
+                        int(with_prox), ('op' if grad_op else 'fn')
+                        if with_grad else 'none')})
+
     # ---- derived ---------------------------------------------------------
     def child(key='f'):
         return build_func(space, sd, fd[key], geo)
@@ -513,6 +567,13 @@ def build_func(space, sd, fd, geo=None):
     if cls == 'leftscal':
         c = child()
         s = float(fd['s'])
+        if s == 0:
+            # documented: (0 * f)(x) == 0 * f(x); only for f finite on the
+            # whole space (0 * inf has no documented meaning)
+            if rv(c) is None or rv(c).dom_residual(np.zeros(n)) is not None:
+                raise Rejected('0 * f needs a finite f')
+            return node(0.0 * c.f, R.Constant(geo, 0.0), [c],
+                        lambda x: 0.0, region={'zero': 'left'})
         f = s * c.f
         ref = None if rv(c) is None else R.LeftScal(rv(c), s)
         region = {}
@@ -523,6 +584,22 @@ def build_func(space, sd, fd, geo=None):
     if cls == 'rightscal':
         c = child()
         s = float(fd['s'])
+        if s == 0:
+            # documented: (f * 0)(x) == f(0 * x) = f(0) (needs f(0) finite)
+            v0 = None
+            if rv(c) is not None and not any(b.cls == 'infconv'
+                                             for b in c.nodes()):
+                # (the value of an infimal convolution is not available)
+                v0 = rv(c).value(np.zeros(n))
+            if v0 is None or not np.isfinite(v0):
+                raise Rejected('f * 0 needs a finite f(0)')
+            try:
+                f = c.f * 0.0
+            except Exception as e:  # noqa  (evaluates c.f(0))
+                raise BuildCrash(c, e)
+            return node(f, R.Constant(geo, float(v0)), [c],
+                        lambda x: c.value(0.0 * x), region={'zero': 'right'},
+                        extra={'s': 0.0})
         f = c.f * s
         ref = None if rv(c) is None else R.RightScal(rv(c), s)
         region = {}
@@ -578,6 +655,14 @@ def build_func(space, sd, fd, geo=None):
         return node(f, ref, [c], asm, extra=extra)
     if cls == 'sum':
         c1, c2 = child('f'), child('g')
+        if fd.get('minus'):
+            # f - g, documented as f + (-1) * g (C09)
+            f = c1.f - c2.f
+            ref = (None if rv(c1) is None or rv(c2) is None
+                   else R.Sum(rv(c1), R.LeftScal(rv(c2), -1.0)))
+            return node(f, ref, [c1, c2],
+                        lambda x: c1.value(x) - c2.value(x),
+                        region={'sum': 'minus'})
         f = c1.f + c2.f
         ref = (None if rv(c1) is None or rv(c2) is None
                else R.Sum(rv(c1), rv(c2)))
@@ -622,7 +707,9 @@ def build_func(space, sd, fd, geo=None):
             sg = _vec(space, sgf)
             sgf = _flatv(space, sg)
         try:
-            f = S.BregmanDistance(c.f, p, sg)
+            # ``via_method`` (C09): the documented short-hand f.bregman(..)
+            f = (c.f.bregman(p, sg) if fd.get('via_method')
+                 else S.BregmanDistance(c.f, p, sg))
         except Exception as e:  # noqa  (constructor evaluates c.f(p))
             raise BuildCrash(c, e)
         ref = None
@@ -676,17 +763,30 @@ def build_func(space, sd, fd, geo=None):
         parts = build.space_parts(sd)
         kids = [build_func(space[i], parts[i], fd['parts'][i])
                 for i in range(len(parts))]
+        region = {}
+        for i, j in fd.get('share', []) or []:
+            # one and the same functional object as summands i and j (the
+            # descriptor guarantees equal parts)
+            if parts[i] != parts[j] or fd['parts'][i] != fd['parts'][j]:
+                raise HarnessError('shared summands must be equal')
+            kids[j] = kids[i]
+            region['sepsum'] = 'shared-object'
         f = S.SeparableSum(*[k.f for k in kids])
         if f.domain != space:
             raise HarnessError('SeparableSum domain differs from descriptor')
         ref = (None if any(k.ref is None for k in kids)
                else R.SeparableSum(geo, [k.ref for k in kids]))
         return node(f, ref, kids,
-                    lambda x: sum(k.value(xi) for k, xi in zip(kids, x)))
+                    lambda x: sum(k.value(xi) for k, xi in zip(kids, x)),
+                    region=region)
     if cls == 'sepsum_power':
         m = int(fd['n'])
         kid = build_func(space[0], sd['base'], fd['f'])
-        f = S.SeparableSum(kid.f, m)
+        if fd.get('style', 'int') == 'repeat':
+            # the same object listed m times instead of ``(f, m)``
+            f = S.SeparableSum(*([kid.f] * m))
+        else:
+            f = S.SeparableSum(kid.f, m)
         if f.domain != space:
             raise HarnessError('SeparableSum domain differs from descriptor')
         ref = None
@@ -936,7 +1036,7 @@ def leaf_funcs(draw, sd, purpose, top=True, full=False):
                     'IndicatorZero', 'Constant', 'Zero', 'QuadraticForm',
                     'IndicatorBox', 'IndicatorNonnegativity',
                     'L1Norm', 'L2NormSquared', 'Huber', 'KL', 'QuadraticForm',
-                    'LinearForm']
+                    'LinearForm', 'Simple']
             if top:
                 pool += ['IndicatorSimplex', 'IndicatorSumConstraint']
         else:
@@ -951,7 +1051,7 @@ def leaf_funcs(draw, sd, purpose, top=True, full=False):
             pool = ['GroupL1Norm', 'GroupL1Norm', 'IndicatorGroupL1UnitBall',
                     'Huber', 'L2NormSquared', 'L1Norm', 'L2Norm',
                     'sepsum_power', 'IndicatorZero', 'Constant',
-                    'QuadraticForm', 'LinearForm']
+                    'QuadraticForm', 'LinearForm', 'Simple', 'sepsum_power']
         else:
             pool = ['GroupL1Norm', 'GroupL1Norm', 'Huber', 'L2NormSquared',
                     'L1Norm', 'L2Norm', 'sepsum_power', 'Constant',
@@ -1006,6 +1106,13 @@ def leaf_funcs(draw, sd, purpose, top=True, full=False):
                 'upper': draw(_bound_desc(n, False))}
     if cls == 'LinearForm':
         return {'cls': cls, 'vector': draw(vec(n, nz_values()))}
+    if cls == 'Simple':
+        return {'cls': cls, 'a': draw(st.sampled_from([2.0, 0.5, 3.0, 0.25])),
+                'b': draw(st.one_of(st.none(), vec(n))),
+                'c': draw(st.sampled_from([0.0, 1.0, -2.5])),
+                'with_prox': draw(st.integers(0, 3)) > 0,
+                'with_grad': draw(st.integers(0, 3)) > 0,
+                'grad_op': draw(st.booleans())}
     if cls == 'QuadraticForm':
         return draw(quadratic_forms(sd, n, allow_known_bad=top,
                                     for_conj=(purpose == 'conj')))
@@ -1021,9 +1128,13 @@ def leaf_funcs(draw, sd, purpose, top=True, full=False):
         return {'cls': cls, 'outer': draw(st.sampled_from([1.0, 2.0, INF])),
                 'sing': draw(st.sampled_from([1.0, 2.0, INF]))}
     if cls == 'sepsum_power':
-        return {'cls': cls, 'n': int(sd['power']),
-                'f': draw(leaf_funcs(sd['base'], purpose, top=False,
-                                     full=full))}
+        fd = {'cls': cls, 'n': int(sd['power']),
+              'f': draw(leaf_funcs(sd['base'], purpose, top=False,
+                                   full=full))}
+        if purpose == 'conj':
+            # SeparableSum(f, n) or the same object listed n times
+            fd['style'] = draw(st.sampled_from(['int', 'repeat']))
+        return fd
     if cls == 'sepsum':
         return {'cls': cls, 'parts': [draw(func_descs(p, purpose, 1,
                                                       top=False, full=full))
